@@ -922,3 +922,91 @@ def byteorderreq(repo):
     res.samples = [f"{ver.name}: 12 cases; {add.name}: 16 cases"]
     res.analysed = [ATTRIBUTE_CHECKER]
     return res
+
+
+# ---- R-ATTRTYPE -------------------------------------------------------------------------------------------
+def attrtype(repo):
+    """R-ATTRTYPE (C13): the attribute value type checkers of attribute_util (`_is_boolean`, `_is_constant_boolean`,
+    `_is_constant_integer`, `_is_string`).  Each is a chain of `if <test>: return [error]` ending in `return []`.
+    The tests are evaluated over the value kind (expression of type integer / boolean / enumeration / opaque, string,
+    or nothing) with every sub-test the rule does not interpret (is_constant(...), has_field("value"), ...) ranging
+    over both truth values: a value of the wrong kind must be rejected whatever those say."""
+    import itertools
+    res = RuleResult("R-ATTRTYPE")
+    m = repo.mod("compiler/util/attribute_util.py")
+    wanted = {"boolean": ("expr", "boolean"), "integer": ("expr", "integer"), "string": ("string", None)}
+    found = 0
+    for f in m.top_funcs():
+        if not f.name.startswith("_is_"):
+            continue
+        kind = next((k for k in wanted if k in f.name), None)
+        if kind is None:
+            continue
+        found += 1
+        form, wt = wanted[kind]
+        tests = [n.test for n in f.node.body if isinstance(n, ast.If)
+                 and any(isinstance(r, ast.Return) and not (isinstance(r.value, ast.List) and not r.value.elts) for r in n.body)]
+        if not tests:
+            raise AnalysisError(f"{f.name}: no rejecting test found")
+
+        def atoms(t, acc):
+            if isinstance(t, ast.BoolOp):
+                for v in t.values:
+                    atoms(v, acc)
+            elif isinstance(t, ast.UnaryOp) and isinstance(t.op, ast.Not):
+                atoms(t.operand, acc)
+            else:
+                acc.append(t)
+
+        def ev(t, env, free):
+            if isinstance(t, ast.BoolOp):
+                vals = [ev(v, env, free) for v in t.values]
+                return all(vals) if isinstance(t.op, ast.And) else any(vals)
+            if isinstance(t, ast.UnaryOp) and isinstance(t.op, ast.Not):
+                return not ev(t.operand, env, free)
+            src = ast.unparse(t)
+            if isinstance(t, ast.Call) and isinstance(t.func, ast.Attribute) and t.func.attr == "has_field" and t.args \
+                    and isinstance(t.args[0], ast.Constant) and ast.unparse(t.func.value).endswith(".value"):
+                return env["has"] == t.args[0].value
+            if isinstance(t, ast.Compare) and len(t.ops) == 1 and ast.unparse(t.left).endswith(".type.which_type") \
+                    and isinstance(t.comparators[0], ast.Constant):
+                eq = env["which_type"] == t.comparators[0].value
+                return eq if isinstance(t.ops[0], ast.Eq) else (not eq if isinstance(t.ops[0], ast.NotEq) else free[src])
+            return free[src]
+
+        all_atoms = []
+        for t in tests:
+            atoms(t, all_atoms)
+        free_names = []
+        for a in all_atoms:
+            s_ = ast.unparse(a)
+            interp = (isinstance(a, ast.Call) and isinstance(a.func, ast.Attribute) and a.func.attr == "has_field"
+                      and ast.unparse(a.func.value).endswith(".value")) or \
+                     (isinstance(a, ast.Compare) and ast.unparse(a.left).endswith(".type.which_type")
+                      and isinstance(a.ops[0], (ast.Eq, ast.NotEq)))
+            if not interp and s_ not in free_names:
+                free_names.append(s_)
+        if len(free_names) > 6:
+            raise AnalysisError(f"{f.name}: too many uninterpreted sub-tests")
+        kinds = [("expression", "integer"), ("expression", "boolean"), ("expression", "enumeration"), ("expression", "opaque"),
+                 ("string_constant", None), (None, None)]
+        for has, wtype in kinds:
+            ok_kind = (form == "expr" and has == "expression" and wtype == wt) or (form == "string" and has == "string_constant")
+            if ok_kind:
+                continue
+            res.instances += 1
+            for combo in itertools.product((False, True), repeat=len(free_names)):
+                free = dict(zip(free_names, combo))
+                env = {"has": has, "which_type": wtype}
+                rejected = any(ev(t, env, free) for t in tests)
+                if not rejected:
+                    what = f"an expression of type {wtype}" if has == "expression" else ("a string" if has else "an empty value")
+                    res.add(f"{m.rel}|{f.name}|{has}|{wtype}", f"{f.name} accepts {what}"
+                            + (f" when {', '.join(k for k, v in free.items() if v) or 'the other sub-tests are false'}" if free_names else "")
+                            + f": the attribute is documented as {kind}, and later passes read it as such", m.rel, f.line, f.name)
+                    break
+    if found < 4:
+        raise AnalysisError(f"attribute_util: only {found} value type checkers found")
+    res.samples = [f"{found} checkers, each against 5 wrong value kinds"]
+    res.analysed = [m.rel]
+    return res
